@@ -87,11 +87,22 @@ def user_prims():
 
     defvjp(log_tri, t0, lambda ans, a, b, c, tag: lambda g: g * a, lambda ans, a, b, c, tag: lambda g: g * a)
     defjvp(log_tri, lambda g, ans, a, b, c, tag: g * (b + c), lambda g, ans, a, b, c, tag: g * a, lambda g, ans, a, b, c, tag: g * a)
-    _USER.update({"log_scale": log_scale, "log_mul": log_mul, "log_tri": log_tri})
+    @primitive
+    def log_ident(a, tag):
+        # hands its argument back unchanged (the very same object): still one operation of the graph
+        return a
+
+    def mk_ident(ans, a, tag):
+        LOG.append(("make", tag))
+        return lambda g: (LOG.append(("apply", tag)), g)[1]
+
+    defvjp(log_ident, mk_ident)
+    defjvp(log_ident, lambda g, ans, a, tag: g)
+    _USER.update({"log_scale": log_scale, "log_mul": log_mul, "log_tri": log_tri, "log_ident": log_ident})
     return _USER
 
 
-RAW_USER = {"log_scale": lambda a, c, tag: a * c, "log_mul": lambda a, b, tag: a * b, "log_tri": lambda a, b, c, tag: a * b + c * a}
+RAW_USER = {"log_scale": lambda a, c, tag: a * c, "log_mul": lambda a, b, tag: a * b, "log_tri": lambda a, b, c, tag: a * b + c * a, "log_ident": lambda a, tag: a}
 
 
 def _new_result():
@@ -142,7 +153,7 @@ def _live_user_ops(prog):
             stack.extend(ops[v - base]["in"])
     live = {}
     for k, op in enumerate(ops):
-        if op["op"] in ("log_scale", "log_mul", "log_tri") and (op["op"] != "log_tri" or dep[op["in"][0]]):
+        if op["op"] in ("log_scale", "log_mul", "log_tri", "log_ident") and (op["op"] != "log_tri" or dep[op["in"][0]]):
             live[k] = (base + k) in used and dep[base + k]
     # ancestors among user ops (for order checks): anc[k] = set of user ops whose value k consumes transitively
     reach = {}
